@@ -107,6 +107,13 @@ def parse_records(text):
             last.stop = True
         elif t == "G":
             d = kvs(l)
+            if l.startswith("G pre") and cur.pre is not None and cur.R is not None:
+                # a second nlopt_optimize on the same object (runs=2): continue in a new record
+                nxt = Run(cur.spec)
+                nxt.part = getattr(cur, "part", 1) + 1
+                runs.append(nxt)
+                cur = nxt
+                last = None
             if l.startswith("G pre") and cur.pre is None:
                 cur.pre = d
             elif l.startswith("G post"):
